@@ -99,6 +99,9 @@ def excel_text_cells_through_str(w, comment):
     rep(w + "/cutplace/rowio.py", "    else:\n        result = str(cell.value)\n        if (cell.ctype == xlrd.XL_CELL_NUMBER) and (result.endswith(\".0\")):\n", "    else:\n        # Note: str() leaves the value of text cells as it is.\n        result = str(cell.value)\n        if result.endswith(\".0\"):\n            # %s\n" % comment)
 def exit_closes_only_without_error(w):
     rep(w + "/cutplace/validio.py", "        try:\n            self.close()\n        except errors.CutplaceError:\n            if exc_type is None:\n                raise\n", "        if exc_type is None:\n            self.close()\n")
+def number_token_explicit_bases(w):
+    rep(w + "/cutplace/ranges.py", "        # Note: base 0 automatically handles prefixes like 0x.\n        result = int(value, 0)\n",
+        "        # Note: use explicit bases so numbers with leading zeros such as \"09\" are not rejected.\n        result = int(value, 16) if value.startswith(\"0x\") else int(value)\n")
 
 PLAN = {"C03-10": chars_on_stripped, "C03-2": chars_on_stripped, "C04-10": chars_on_stripped, "C20-10": chars_on_stripped, "C03-4": empty_on_raw, "C03-7": decimal_length_only_flat,
         "C05-3": distinct_no_reset, "C18-1": distinct_no_reset, "C18-4": distinct_no_reset, "C18-6": distinct_no_reset, "C05-7": distinct_class_level, "C07-10": until_zero_is_none, "C18-3": until_zero_is_none_unguarded,
@@ -109,7 +112,8 @@ PLAN = {"C03-10": chars_on_stripped, "C03-2": chars_on_stripped, "C04-10": chars
         "C09-11": advance_only_nonempty_rows, "C09-2": advance_only_nonempty_rows, "C09-5": advance_only_nonempty_rows, "C14-10": fixed_writelines, "C14-6": fixed_writelines, "C14-3": fixed_write_per_field, "C14-9": pad_stripped,
         "C20-7": exit_closes_only_without_error, "C08-11": reset_after_the_verdicts, "C20-1": close_without_finally, "C20-5": close_without_finally,
         "C05-12": close_guard_dropped, "C08-12": close_guard_with_old_condition,
-        "C16-9": lambda w: excel_text_cells_through_str(w, "Whole numbers, including the ones computed by formulas."), "C17-9": lambda w: excel_text_cells_through_str(w, "Whole numbers are stored as float.")}
+        "C16-9": lambda w: excel_text_cells_through_str(w, "Whole numbers, including the ones computed by formulas."), "C17-9": lambda w: excel_text_cells_through_str(w, "Whole numbers are stored as float."),
+        "C11-10": number_token_explicit_bases}
 
 def main(ids):
     head = subprocess.check_output(["git", "-C", "/repo", "rev-parse", "--short", "HEAD"], text=True).strip()
